@@ -43,6 +43,10 @@ def keyset(ctx, fi: FuncInfo, e: ast.expr, within: Optional[set[str]] = None, de
             elif isinstance(n, (ast.ListComp, ast.SetComp, ast.DictComp, ast.GeneratorExp)):
                 gens = [(g.target, g.iter) for g in n.generators]
             for tg, it in gens:
+                if isinstance(it, ast.Name) and it.id not in params_of(fi.node) and single_def(fi.node, it.id) is not None:
+                    it = single_def(fi.node, it.id)          # a view kept under a local name:  pairs = TABLE.items() ... for k, v in pairs
+                    while isinstance(it, ast.Call) and isinstance(it.func, ast.Name) and it.func.id in ("tuple", "list", "sorted") and len(it.args) == 1 and not it.keywords:
+                        it = it.args[0]                      # tuple(TABLE.items()): the same pairs
                 if isinstance(tg, ast.Tuple) and tg.elts and isinstance(tg.elts[0], ast.Name) and tg.elts[0].id == e.id and isinstance(it, ast.Call) \
                         and isinstance(it.func, ast.Attribute) and it.func.attr == "items" and not it.args:
                     c = try_const(ctx, fi, it.func.value, default=_NO)
